@@ -317,6 +317,9 @@ func (c *Client) flush(ctx context.Context) error {
 	}
 	n, err := c.writer.Flush()
 	if err != nil {
+		// Part of the output may have been written, so the stream is not at
+		// a packet boundary anymore: the connection can't be reused.
+		_ = c.Close()
 		return err
 	}
 	if ce := c.lg.Check(zap.DebugLevel, "Flush"); ce != nil {
